@@ -21,6 +21,7 @@ noncomputable instance instScalarReal : Scalar ℝ where
   decLt := fun _ _ => Classical.propDecidable _
   decLe := fun _ _ => Classical.propDecidable _
   isZero := fun a => decide (a = 0)
+  isNaN := fun _ => false
 
 noncomputable instance instTranscReal : Transc ℝ where
   sqrt := Real.sqrt
